@@ -166,6 +166,7 @@ def lm_stream(ctx, hexe, dexe, n_cases, size, want=("oracle", "struct", "spec"),
             eprobs, ne = lmq.compare_enum(case, ekeys, o1[0], st.get("info", {}), o1[nq:], o2[nq:])
             ctx.count((tag, "enum", case.arpa), nontrivial=ne > 0, n=ne)
             ctx.hist("lm.enum_entries", min(ne, 2000) // 100 * 100)
+            ctx.hist("lm.represents_runtime", st.get("info", {}).get("prep"))
             if eprobs:
                 p = eprobs[0]
                 ctx.violation("probing-structure: %s entry %s differs between the built structure and the model of the builder (%s)" %
